@@ -70,8 +70,7 @@ theorem spec_obj_roundtrip : ∀ (v : Obj) (rest : List Nat) (fuel : Nat),
     exact spec_read_real f t rest hs.1.1 hs.1.2 hs.2
   | .str s, rest, fuel, hs, hf => by
     obtain ⟨f, rfl⟩ : ∃ f, fuel = f + 1 := ⟨fuel - 1, by simp [need] at hf; omega⟩
-    have hcr : NoCR s = true := by simpa [SafeSpec] using hs
-    have := spec_readLit_escape s rest hcr
+    have := spec_readLit_escape s rest
     show Syntax.readObj (f + 1) (40 :: (escapePdfString s ++ [41]) ++ rest) = _
     rw [Syntax.readObj]
     simp [Syntax.skip, Syntax.isWhite, this, readBack]
